@@ -1,6 +1,7 @@
 structure ScalarOps (α : Type) where
   add : α → α → α
   sub : α → α → α
+  neg : α → α
   mul : α → α → α
   div : α → α → α
   lt : α → α → Bool
@@ -9,7 +10,7 @@ structure ScalarOps (α : Type) where
 
 namespace ScalarOps
 def float : ScalarOps Float :=
-  { add := (· + ·), sub := (· - ·), mul := (· * ·), div := (· / ·), lt := fun a b => a < b,
+  { add := (· + ·), sub := (· - ·), neg := fun a => -a, mul := (· * ·), div := (· / ·), lt := fun a b => a < b,
     ofNat := Float.ofNat, sqrt := Float.sqrt }
 end ScalarOps
 
@@ -22,7 +23,7 @@ def triShares {α} (S : ScalarOps α) (q0 q1 q2 area : α) : α × α × α :=
   let d1 := S.sub q1 half
   let d2 := S.sub q2 half
   let quarter := S.div (S.ofNat 1) (S.ofNat 4)
-  let ce (d : α) := S.div (S.mul (S.sub (S.ofNat 0) d) quarter) area
+  let ce (d : α) := S.div (S.mul (S.neg d) quarter) area
   let part (q d : α) := S.div (S.mul (S.div q two) (ce d)) two
   let p0 := part q0 d0
   let p1 := part q1 d1
